@@ -154,7 +154,7 @@ def ref_align_candidates(ishape, oshape, align):
 
 # ------------------------------------------------------------------ running the models in a real pipeline
 
-def run_model(kind, path, dshape, position=(0, 0), align=None, working_directory=None):
+def run_model(kind, path, dshape, position=(0, 0), align=None, working_directory=None, time=1.0):
     """Run load_image / load_charge in an exposure pipeline; returns the bucket seen by the probe placed after it."""
     import pyxel
 
@@ -167,7 +167,7 @@ def run_model(kind, path, dshape, position=(0, 0), align=None, working_directory
         groups = {"charge_generation": [(F_CHG, "load_charge", dict(args, filename=str(path)))]}
     groups["charge_collection"] = [("vp.probes.rec_buckets", "after", {})]
     kw = {"working_directory": working_directory} if working_directory else {}
-    pyxel.run_mode(mk.exposure([1.0], **kw), det, mk.pipeline(groups))
+    pyxel.run_mode(mk.exposure([float(time)], **kw), det, mk.pipeline(groups))
     tr = [t for t in probes.TRACE if t["name"] == "after"]
     if len(tr) != 1:
         raise RuntimeError(f"probe after the loading model ran {len(tr)} times")
@@ -475,7 +475,8 @@ class HistModel:
         # style: how the models / loaders are given the path - "abs" (absolute), "cwd" (relative to the process's
         # current directory), "wd" (relative to pyxel's `working_directory` option)
         self.ext, self.tier, self.prefix, self.style = ext, tier, [list(p) for p in prefix], style
-        ops = [["cropped"], ["model", "image"], ["model", "charge"]]
+        # "image2" / "charge2": the same models in an exposure of 2 s (the file values are scaled by the time step)
+        ops = [["cropped"], ["model", "image"], ["model", "charge"], ["model", "image2"], ["model", "charge2"]]
         if tier == "thorough":
             ops.append(["obs"])
         ops.append(["load"])
@@ -563,7 +564,9 @@ class HistModel:
                         outs.append(np.asarray(load_cropped_and_aligned_image(shape=H_DSHAPE, filename=name),
                                                dtype="float64"))
                     elif op[0] == "model":
-                        outs.append(run_model(op[1], name, H_DSHAPE, working_directory=d if self.style == "wd" else None))
+                        outs.append(run_model(op[1].rstrip("2"), name, H_DSHAPE,
+                                              working_directory=d if self.style == "wd" else None,
+                                              time=2.0 if op[1].endswith("2") else 1.0))
                     elif op[0] == "obs":
                         _write(other, version_array("Z", seed), self.ext)
                         outs.append(self._obs(name, name2, seed, d if self.style == "wd" else None))
@@ -607,7 +610,8 @@ class HistModel:
         out = self._exec(hist)[-1]
         kind = op[0] if op[0] != "model" else "model-" + op[1]
         content = version_array(version, seed)
-        placed = content if kind == "load" else ref_place(content, H_DSHAPE, 0, 0)
+        scale = 2.0 if kind.endswith("2") else 1.0
+        placed = content if kind == "load" else ref_place(content, H_DSHAPE, 0, 0) * scale
         written = [o[1] for o in hist if o[0] in ("w", "rn", "rno")]
         prior = [v for v in (["A"] + written)[:-1] if v != version]
 
@@ -628,7 +632,7 @@ class HistModel:
                 stale_v = None
                 for v in prior:
                     c = version_array(v, seed)
-                    e = c if kind == "load" else ref_place(c, H_DSHAPE, 0, 0)
+                    e = c if kind == "load" else ref_place(c, H_DSHAPE, 0, 0) * scale
                     if _same(got, e):
                         stale_v = v
                 if stale_v is not None:
